@@ -417,9 +417,17 @@ class _Canon(ast.NodeTransformer):
 
     def visit_AnnAssign(self, node):
         self.generic_visit(node)
+        if getattr(node, "_class_level", False):
+            return node            # field declarations of a (data)class keep their order and annotations
         if node.value is None:
             return ast.copy_location(ast.Pass(), node)
         return ast.copy_location(ast.Assign(targets=[node.target], value=node.value), node)
+
+    def visit_ClassDef(self, node):
+        for st in node.body:
+            if isinstance(st, ast.AnnAssign):
+                st._class_level = True
+        return self.generic_visit(node)
 
     def visit_Compare(self, node):
         self.generic_visit(node)
